@@ -2,16 +2,16 @@ SPECIFICATION MCLive
 CONSTANTS
   Calls = {"k1"}
   CCl = {"c1"}
-  SCl = {"s1"}
+  SCl = {}
   Stateless = FALSE
   Timeout = TRUE
   Sse = TRUE
-  Nested = TRUE
-  Faults = {"vanish"}
-  DelModes = {}
+  Nested = FALSE
+  Faults = {"cut", "net"}
+  DelModes = {"hang"}
   Helds = FALSE
   Notifs = FALSE
-  Cancels = TRUE
+  Cancels = FALSE
   AwaitHandlers = TRUE
   StopSseOnClose = TRUE
 VIEW MCView
